@@ -546,7 +546,7 @@ class MSTDPET(IndependentCellTrainer):
             z_pre = monitors["elig_pre"].peek()
 
             # process update
-            if isinstance(signal, torch.Tensor):
+            if isinstance(signal, torch.Tensor) and signal.ndim > 0:
                 # signal subterms
                 scaledsignal = (
                     (signal * scale).abs().view(-1, *repeat(1, z_post.ndim - 1))
@@ -1005,7 +1005,7 @@ class MSTDP(IndependentCellTrainer):
             dpre = ein.einsum(i_pre, x_post, "b ... r, b ... r -> b ...")
 
             # process update
-            if isinstance(signal, torch.Tensor):
+            if isinstance(signal, torch.Tensor) and signal.ndim > 0:
                 # signal subterms
                 scaledsignal = (
                     (signal * scale).abs().view(-1, *repeat(1, dpost.ndim - 1))
